@@ -33,8 +33,21 @@ def run(ctx):
     try:
         for i in range(ctx.n(40, 300)):
             spec = tmodel.gen_spec(rng, contribs=['Absorption'] + (['Rayleigh'] if rng.random() < 0.3 else []),
-                                   nlayers=rng.choice([2, 3, 4, 5, 7, 9]))
+                                   nlayers=rng.choice([2, 3, 4, 5, 7, 9]), nwn=rng.choice([1, 2, 3, 4, 5, 6]),
+                                   ngas=rng.choice([1, 2, 2, 3]))
             spec['T'] = [rng.uniform(400, 2500) for _ in range(spec['nlayers'])]
+            if len(spec['gases']) >= 2 and len(spec['wn']) >= 3 and rng.random() < 0.6:
+                # a second gas tabulated on a coarser grid of its own, reaching past the ends of the native grid, so
+                # that its values are regridded (interpolated) in both opacity modes
+                g2 = spec['gases'][1]
+                wn_ = np.array(spec['wn'], float)
+                m2 = rng.randint(2, len(wn_) - 1)
+                inner = sorted(rng.sample([float((wn_[j] + wn_[j + 1]) / 2) for j in range(len(wn_) - 1)], m2 - 2))
+                coarse = np.array([wn_[0] - rng.uniform(1, 50)] + inner + [wn_[-1] + rng.uniform(1, 300)])
+                t0 = np.array(spec['opac'][g2]['tab'], float)
+                fac = np.array([10 ** rng.uniform(-1, 1) for _ in range(len(coarse))])
+                spec['opac'][g2] = dict(spec['opac'][g2], wn=coarse, tab=t0[..., [0] * len(coarse)] * fac)
+                ctx.count('second gas on its own coarser grid')
             ng = rng.choice([1, 2, 3, 5])
             w = np.array([rng.uniform(0.05, 1) for _ in range(ng)])
             w = w / w.sum()
